@@ -22,6 +22,7 @@
 #include <event2/buffer.h>
 #include "event-internal.h"
 #include "bufferevent-internal.h"
+#include "ratelim-internal.h"
 #include <sys/socket.h>
 #include <unistd.h>
 #include <errno.h>
@@ -41,6 +42,7 @@ static struct event_base *base;
 static struct bufferevent *B, *P, *U;   /* under test, peer (pair types), underlying (filter) */
 static int fds[2];
 static int harness_draining;            /* the harness itself removes bytes: not a transfer */
+static struct ev_token_bucket_cfg *rlcfg; /* -P rl=1 (sock): 4 B per 4 ms tick, burst 4, both directions */
 
 enum { L_XFER_R, L_XFER_W, L_EVENT };
 struct logent { int kind; short what; int64_t t; size_t n, len_after; };
@@ -104,13 +106,14 @@ static struct {
 	int by[2];               /* which rule (re)started the running interval */
 	size_t wm_high;
 	size_t inlen, outlen;    /* facts about the environment, taken from the real buffers */
+	int susp_bw[2];          /* environment fact (rate-limited variant): direction suspended for bandwidth */
 } m;
 static int dead;             /* model and implementation have diverged: stop the history */
 
 static int susp_r(void) { return m.wm_high && m.inlen >= m.wm_high; }
 static int active(int d)
 {
-	if (!m.en[d] || !m.tmo[d]) return 0;
+	if (!m.en[d] || !m.tmo[d] || m.susp_bw[d]) return 0;
 	if (d == R) return !susp_r();
 	return m.outlen > 0;
 }
@@ -166,6 +169,7 @@ static void m_consume(int after_loop)
 			if (!after_loop) { failk(d, "fires-outside-loop", NULL, "timeout event delivered by an API call%.0lld%.0lld", 0, 0); break; }
 			if (!m.armed[d]) {
 				const char *why = !m.en[d] ? "while-disabled" : !m.tmo[d] ? "without-timeout-set" :
+				    m.susp_bw[d] ? "while-suspended-for-bandwidth" :
 				    d == R ? "while-suspended" : "with-empty-output";
 				failk(d, "spurious", why, "timeout fired although the idle timer is not running%.0lld%.0lld", 0, 0);
 				break;
@@ -179,27 +183,40 @@ static void m_consume(int after_loop)
 		}
 	}
 	nlog = 0;
-	if (dead) return;
-	if (after_loop) {
-		for (int d = 0; d < 2; d++) {
-			if (m.armed[d] && vclock_us >= m.deadline[d]) {
-				failk(d, "missing", byname[m.by[d]], "no timeout although idle since %lld (now %lld)", m.deadline[d] - m.tmo[d], vclock_us);
-				return;
-			}
-			if (m.armed[d]) { if (d == R) MC_COUNT("loop_with_read_timer_running"); else MC_COUNT("loop_with_write_timer_running"); }
+}
+
+/* environment facts: buffer lengths and (rate-limited variant) bandwidth suspension */
+static void m_sync_env(void)
+{
+	struct bufferevent_private *p = BEV_UPCAST(B);
+	m.inlen = evbuffer_get_length(bufferevent_get_input(B));
+	m.outlen = evbuffer_get_length(bufferevent_get_output(B));
+	m.susp_bw[R] = !!(p->read_suspended & (BEV_SUSPEND_BW|BEV_SUSPEND_BW_GROUP));
+	m.susp_bw[W] = !!(p->write_suspended & (BEV_SUSPEND_BW|BEV_SUSPEND_BW_GROUP));
+	m_refresh(R, BY_UNSUSPEND); m_refresh(W, BY_UNSUSPEND);
+}
+
+/* a loop step ran to quiescence at the current time */
+static void m_after_loop(void)
+{
+	for (int d = 0; d < 2; d++) {
+		if (m.armed[d] && vclock_us >= m.deadline[d]) {
+			failk(d, "missing", byname[m.by[d]], "no timeout although idle since %lld (now %lld)", m.deadline[d] - m.tmo[d], vclock_us);
+			return;
 		}
-		/* the direction must really be disabled after a timeout, and only then */
-		short en = bufferevent_get_enabled(B);
-		for (int d = 0; d < 2; d++) {
-			int real = !!(en & (d == R ? EV_READ : EV_WRITE));
-			if (real != m.en[d]) {
-				failk(d, real ? "not-disabled-after-timeout" : "disabled-without-timeout", NULL,
-				    "bufferevent_get_enabled disagrees with the model (real=%lld model=%lld)", real, m.en[d]);
-				return;
-			}
-		}
-		MC_COUNT("enabled_state_compared");
+		if (m.armed[d]) { if (d == R) MC_COUNT("loop_with_read_timer_running"); else MC_COUNT("loop_with_write_timer_running"); }
 	}
+	/* the direction must really be disabled after a timeout, and only then */
+	short en = bufferevent_get_enabled(B);
+	for (int d = 0; d < 2; d++) {
+		int real = !!(en & (d == R ? EV_READ : EV_WRITE));
+		if (real != m.en[d]) {
+			failk(d, real ? "not-disabled-after-timeout" : "disabled-without-timeout", NULL,
+			    "bufferevent_get_enabled disagrees with the model (real=%lld model=%lld)", real, m.en[d]);
+			return;
+		}
+	}
+	MC_COUNT("enabled_state_compared");
 }
 
 /* ------------------------------------------------------------------ */
@@ -242,6 +259,16 @@ static uint64_t h_bev(uint64_t h, struct bufferevent *b)
 	h = mc_hash_u64(h, (uint64_t)(p->deferred.evcb_flags & (EVLIST_ACTIVE|EVLIST_ACTIVE_LATER)));
 	h = mc_hash_u64(h, (uint64_t)p->refcnt);
 	h = h_event(h, &b->ev_read); h = h_event(h, &b->ev_write);
+	if (p->rate_limiting && p->rate_limiting->cfg) {
+		struct timeval tv; unsigned tick;
+		evutil_gettimeofday(&tv, NULL);
+		tick = ev_token_bucket_get_tick_(&tv, p->rate_limiting->cfg);
+		h = mc_hash_u64(h, (uint64_t)p->rate_limiting->limit.read_limit);
+		h = mc_hash_u64(h, (uint64_t)p->rate_limiting->limit.write_limit);
+		h = mc_hash_u64(h, (uint64_t)(tick - p->rate_limiting->limit.last_updated));
+		h = h_event(h, &p->rate_limiting->refill_bucket_event);
+		h = mc_hash_u64(h, (uint64_t)(vclock_us % 4000));   /* position inside the 4 ms tick */
+	}
 	return h;
 }
 /* kernel side of the socket type */
@@ -270,6 +297,7 @@ static uint64_t canon(void)
 		h = mc_hash_u64(h, (uint64_t)m.armed[d]);
 		h = mc_hash_u64(h, m.armed[d] ? (uint64_t)(m.deadline[d] - vclock_us) : 0);
 		h = mc_hash_u64(h, m.armed[d] ? (uint64_t)m.by[d] : 0);
+		h = mc_hash_u64(h, (uint64_t)m.susp_bw[d]);
 	}
 	h = mc_hash_u64(h, m.wm_high); h = mc_hash_u64(h, m.inlen); h = mc_hash_u64(h, m.outlen);
 	h = h_bev(h, B);
@@ -321,14 +349,16 @@ static void body(void)
 	int bevopts = mc_param("defer", 0) ? BEV_OPT_DEFER_CALLBACKS : 0;
 	int big = mc_param("big", 8192);
 	int pwm = mc_param("pwm", 8);            /* peer's read high-water mark (pair types): partial transfers */
-	long live0 = mcx_alloc_live(); uint64_t fd0 = mcx_fd_signature();
+	static uint64_t fd0; static int have_fd0;
+	long live0 = mcx_alloc_live();
 	struct bufferevent *pr[2] = { NULL, NULL };
+	if (!have_fd0) { fd0 = mcx_fd_signature(); have_fd0 = 1; }
 
 	vclock_reset(); vclock_idle_hook = idle; vclock_block_hook = NULL;
 	nlog = 0; log_overflow = 0; dead = 0; n_readcb = n_writecb = n_eventcb = 0; harness_draining = 0;
 	k_in = 0; n_k_out = 0;
 	memset(&m, 0, sizeof m);
-	B = P = U = NULL; fds[0] = fds[1] = -1;
+	B = P = U = NULL; fds[0] = fds[1] = -1; rlcfg = NULL;
 
 	base = event_base_new();
 	if (!base) { mc_fail("C20/harness/setup", "event_base_new"); return; }
@@ -350,6 +380,11 @@ static void body(void)
 	bufferevent_setcb(B, b_readcb, b_writecb, b_eventcb, NULL);
 	evbuffer_add_cb(bufferevent_get_input(B), in_cb, NULL);
 	evbuffer_add_cb(bufferevent_get_output(B), out_cb, NULL);
+	if (type == T_SOCK && mc_param("rl", 0)) {
+		struct timeval tick = { 0, 4000 };
+		rlcfg = ev_token_bucket_cfg_new(4, 4, 4, 4, &tick);
+		if (!rlcfg || bufferevent_set_rate_limit(B, rlcfg) < 0) { mc_fail("C20/harness/setup", "rate limit"); goto out; }
+	}
 	bufferevent_enable(B, EV_READ | EV_WRITE);
 	m.en[R] = m.en[W] = 1;
 	{	/* optional preset timeouts (saves depth): -P rt=<0..2> -P wt=<0..2> */
@@ -441,9 +476,9 @@ static void body(void)
 		track_kernel_writes();
 		m_consume(after_loop);
 		if (dead) break;
-		/* lengths are environment facts: resynchronise (also covers peer-side effects) */
-		m.inlen = evbuffer_get_length(bufferevent_get_input(B));
-		m.outlen = evbuffer_get_length(bufferevent_get_output(B));
+		m_sync_env();
+		if (after_loop) m_after_loop();
+		if (dead) break;
 		mc_observe("[%d%d a%d%d] ", m.en[R], m.en[W], m.armed[R], m.armed[W]);
 		if (mc_state(canon(), D - 1 - step)) break;
 	}
@@ -452,11 +487,12 @@ out:
 	if (U) bufferevent_free(U);
 	if (P) bufferevent_free(P);
 	if (base) { event_base_loop(base, EVLOOP_NONBLOCK); event_base_free(base); }
+	if (rlcfg) ev_token_bucket_cfg_free(rlcfg);
 	if (fds[0] >= 0) close(fds[0]);
 	if (fds[1] >= 0) close(fds[1]);
 	B = P = U = NULL; base = NULL;
 	if (mcx_alloc_live() != live0) mc_fail("C20/hygiene/leak", "%ld library allocations left", mcx_alloc_live() - live0);
-	if (mcx_fd_signature() != fd0) mc_fail("C20/hygiene/fdleak", "fd table differs from baseline");
+	if (mcx_fd_signature() != fd0) { mc_fail("C20/hygiene/fdleak", "fd table differs from baseline"); fd0 = mcx_fd_signature(); }
 }
 
 int main(int c, char **v)
